@@ -361,6 +361,18 @@ class C18(Prop):
                 return True, "outside the law's domain"
             text = G.build_doc(doc)
             try:
+                # an earlier caller parsed the same document and changed the dicts and lists it was handed: they are its own
+                prev = M.parse_email(text)
+                for d in prev:
+                    for v in list(d.values()):
+                        if isinstance(v, list):
+                            v.append("scribble"); v.reverse()
+                        elif isinstance(v, dict):
+                            v["scribble"] = "scribble"
+                    d["scribble"] = ["scribble"]
+            except Exception:
+                pass
+            try:
                 got = M.parse_email(text)
             except Exception as e:
                 return False, f"raises {type(e).__name__}"
